@@ -1,1 +1,95 @@
-fn main() { println!("hv"); }
+//! hv — bounded exhaustive exploration of harper (see /verif/DESIGN.md).
+#![allow(dead_code)]
+#![allow(clippy::all)]
+
+// harper-ls is a bin-only crate: its modules are compiled into the harness under the same root
+// module names so that `crate::config::Config` etc. resolve unchanged.
+#[path = "/repo/harper-ls/src/backend.rs"]
+mod backend;
+#[path = "/repo/harper-ls/src/config.rs"]
+mod config;
+#[path = "/repo/harper-ls/src/diagnostics.rs"]
+mod diagnostics;
+#[path = "/repo/harper-ls/src/dictionary_io.rs"]
+mod dictionary_io;
+#[path = "/repo/harper-ls/src/document_state.rs"]
+mod document_state;
+#[path = "/repo/harper-ls/src/git_commit_parser.rs"]
+mod git_commit_parser;
+#[path = "/repo/harper-ls/src/pos_conv.rs"]
+mod pos_conv;
+
+mod checks;
+mod frontends;
+mod harvest;
+mod pool;
+mod spaces;
+mod sweep;
+mod util;
+
+use util::*;
+
+fn usage() -> ! {
+    eprintln!("usage: hv check <ID> [--tier quick|thorough] [--replay <path>]");
+    std::process::exit(2)
+}
+
+fn main() {
+    let args: Vec<String> = std::env::args().collect();
+    if args.len() < 2 {
+        usage();
+    }
+    match args[1].as_str() {
+        "check" => {
+            if args.len() < 3 {
+                usage();
+            }
+            let id = args[2].clone();
+            let mut tier = std::env::var("VERIF_TIER")
+                .ok()
+                .and_then(|t| Tier::parse(&t))
+                .unwrap_or(Tier::Quick);
+            let mut replay = None;
+            let mut i = 3;
+            while i < args.len() {
+                match args[i].as_str() {
+                    "--tier" => {
+                        i += 1;
+                        tier = args.get(i).and_then(|t| Tier::parse(t)).unwrap_or_else(|| usage());
+                    }
+                    "--replay" => {
+                        i += 1;
+                        replay = args.get(i).cloned();
+                    }
+                    _ => usage(),
+                }
+                i += 1;
+            }
+            install_panic_hook();
+            let code = match replay {
+                Some(p) => checks::replay(&id, &p),
+                None => checks::run(&id, tier),
+            };
+            std::process::exit(code);
+        }
+        "worker" => {
+            // hv worker <job> <tier> [extra...]
+            let job = args.get(2).cloned().unwrap_or_default();
+            let tier = args.get(3).and_then(|t| Tier::parse(t)).unwrap_or(Tier::Quick);
+            let extra: Vec<String> = args.iter().skip(4).cloned().collect();
+            std::process::exit(checks::worker(&job, tier, &extra));
+        }
+        "sizes" => {
+            let job = args.get(2).cloned().unwrap_or_default();
+            let tier = args.get(3).and_then(|t| Tier::parse(t)).unwrap_or(Tier::Quick);
+            let h = harvest::harvest();
+            harvest::save(&h);
+            if let Some(m) = match job.as_str() { "sweep-C01" => Some(sweep::Mode::C01), "sweep-C02" => Some(sweep::Mode::C02), "sweep-C03" => Some(sweep::Mode::C03), _ => None } {
+                let s = sweep::Sweep::new(m, tier, &h);
+                for (n, c) in s.space.family_sizes() { println!("{c:>12} {n}"); }
+                println!("{:>12} total", s.space.len());
+            }
+        }
+        _ => usage(),
+    }
+}
